@@ -113,6 +113,15 @@ def judge(ctx, cs, text, label, detail_extra=None):
         if other != expected_other:
             ctx.violation("history", "stub-under-another-class-name-differs-beyond-the-name", dict(det, other=other))
             return
+        # the form a stub *file* uses: names the library provides are reached through a module prefix, everywhere (below
+        # pointers and arrays too), and nothing else changes
+        pref = _sg.generate_cstruct_stub(cs, module_prefix="__cs__.")
+        ctx.event("stubs_with_a_module_prefix")
+        libnames = r"(?:Pointer|Array|CharArray|WcharArray|Structure|Union|Enum|Flag)"
+        bare_in_pref = re.findall(rf"(?<![\w.]){libnames}(?=[\[\)\s|,\]])", pref)
+        if pref.replace("__cs__.", "") != stub or (bare_in_pref and not any(n in user_types(cs) for n in bare_in_pref)):
+            ctx.violation("prefix", "module-prefix-not-applied-to-every-library-name", dict(det, prefixed=pref, bare=bare_in_pref[:5]))
+            return
     except Exception as e:  # noqa: BLE001
         ctx.violation("history", f"repeated-stub-generation-raises:{type(e).__name__}", dict(det, error=lib.exc_sig(e)))
         return
